@@ -519,23 +519,32 @@ def r15(db, ctx):
 
 
 def r16(db, ctx):
-    ctx.rule('R1.6', 'score_position: Σ over enumerate(rows of the matrix) of row[seq[pos + j].as_index()] (ScoringMatrix and DiscreteMatrix are siblings)')
+    ctx.rule('R1.6', 'score_position: Σ over all rows j of the matrix, from zero, of row_j[seq[pos + j].as_index()] (ScoringMatrix and DiscreteMatrix are siblings; '
+                     'loop, counter loop, fold and map/sum spellings are one canonical reduction)')
+    from . import reductions as RX
+    data = ('fld', ('p', 1), 'data')
     for owner in ('ScoringMatrix', 'DiscreteMatrix'):
         f = db.fn(f'lightmotif::pwm::{owner}::score_position')
-        R = X.Rec(f)
-        terms = []
-        for blk in f.blocks:
-            for st in blk['stmts']:
-                if st['k'] == 'assign' and st['rv']['k'] == 'bin' and st['rv']['op'].startswith('Add') and st['rv'].get('ty') in ('f32', 'u8'):
-                    terms.append(norm(R.operand(st['rv']['b'])))
-        for bi, t in f.calls():
-            if 'saturating_add' in (f.callee_short(t) or ''):
-                terms.append(norm(R.operand(t['args'][1])))
-        rows_it = ('call~', 'enumerate', (('call~', 'DenseMatrix::iter', (('fld', ('p', 1), 'data'),)),))
-        sym = ('call~', '::index', ('$seq', ('bin', 'Add', ('p', 3), ('fld', ('elem', '_', '$L'), '0'))))
-        pat = ('idx', ('fld', ('elem', rows_it, '$L'), '1'), ('call~', 'as_index', (sym,)))
-        ok = len(terms) == 1 and m(pat, terms[0]) is not None
-        (ctx.ok if ok else ctx.fail)('R1.6', f, f'{owner}::score_position = Σ_j row_j[seq[pos + j].as_index()]', *([[]] if ok else [f'accumulated terms: {[X.show(t, 120) for t in terms]}']))
+        r, why = RX.returned_reduction(db, f)
+        if r is None:
+            ctx.fail('R1.6', f, f'{owner}::score_position', f'reason=unrecognised-shape: {why}')
+            continue
+        red, C = r
+        probs = []
+        if red['op'] not in ('add', 'sat_add'):
+            probs.append(f'the reduction is {red["op"]}, expected a sum')
+        if norm(red['init']) not in (('k', 0), ('k', 0.0)):
+            probs.append(f'the sum starts from {X.show(red["init"], 40)}, expected zero')
+        if not RX.extent_is_rows(red['extents'], data):
+            probs.append(f'the sum runs over {red["extents"]}, expected every row of self.data')
+        t, pos = red['term'], ('pos', red['L'])
+        okt = t[0] == 'at' and t[1] == ('at', data, pos) and t[2][0] == 'call' and t[2][1].endswith('as_index') and len(t[2][2]) == 1
+        if okt:
+            sym = t[2][2][0]
+            okt = sym[0] == 'at' and norm(sym[1]) == ('p', 2) and X.lin_eq(sym[2], ('bin', 'Add', ('p', 3), pos))
+        if not okt:
+            probs.append(f'accumulated term is {X.show(t, 140)}, expected row_j[seq[pos + j].as_index()]')
+        (ctx.ok if not probs else ctx.fail)('R1.6', f, f'{owner}::score_position = Σ_j row_j[seq[pos + j].as_index()]', *([[red['how']]] if not probs else ['; '.join(probs)]))
 
 
 def run(db, ctx):
